@@ -48,8 +48,7 @@ theorem perm_map_lift {α β γ : Type} {f : α → γ} {g : β → γ} {as : Li
 theorem disc_mapping (hlen : ∀ x, (H x).length = 16) (xs ys : List (Scalar × PyVal))
     (cps cqs sx sy : List (Scalar × Pre))
     (hpx : preItems xs = .ok cps) (hpy : preItems ys = .ok cqs)
-    (hsx : pySorted (fun a b : Scalar × Pre => scalarLt a.1 b.1) cps = .ok sx)
-    (hsy : pySorted (fun a b : Scalar × Pre => scalarLt a.1 b.1) cqs = .ok sy)
+    (hsx : sx = sortItems cps) (hsy : sy = sortItems cqs)
     (wx : ∀ kv ∈ xs, kv.1.WF) (wy : ∀ kv ∈ ys, kv.1.WF)
     (gx : inG0Items xs = true) (gy : inG0Items ys = true)
     (hm : mapBytes (sx.map (digestItem H)) = mapBytes (sy.map (digestItem H)))
@@ -57,8 +56,10 @@ theorem disc_mapping (hlen : ∀ x, (H x).length = 16) (xs ys : List (Scalar × 
     (hequiv : (∃ ys', ys'.Perm ys ∧ EquivItems xs ys') → P)
     (hsub : ∀ x ∈ Pre.inputsList H (sx.map (·.2)) ++ Pre.inputsList H (sy.map (·.2)), x ∈ S) :
     P ∨ Collision H S := by
-  obtain ⟨ix, px, rx⟩ := Rel2.perm_right (pySorted_perm _ _ _ hsx).symm (preItems_rel hpx)
-  obtain ⟨iy, py, ry⟩ := Rel2.perm_right (pySorted_perm _ _ _ hsy).symm (preItems_rel hpy)
+  have hpermx : sx.Perm cps := by rw [hsx]; exact pySortedB_perm _ cps
+  have hpermy : sy.Perm cqs := by rw [hsy]; exact pySortedB_perm _ cqs
+  obtain ⟨ix, px, rx⟩ := Rel2.perm_right hpermx.symm (preItems_rel hpx)
+  obtain ⟨iy, py, ry⟩ := Rel2.perm_right hpermy.symm (preItems_rel hpy)
   have fx : ∀ kd ∈ sx.map (digestItem H), kd.1.WF ∧ kd.2.length = 16 := by
     intro kd hkd
     obtain ⟨b, hb, rfl⟩ := List.mem_map.mp hkd
@@ -280,8 +281,8 @@ theorem disc_val (hlen : ∀ x, (H x).length = 16) : ∀ (v : PyVal), Disc H v
     · have hk' := hk henc
       cases w with
       | dict j' ys =>
-        obtain ⟨cps, sx, hpx, hsx, e1⟩ := pre_dict_inv hp
-        obtain ⟨cqs, sy, hpy, hsy, e2⟩ := pre_dict_inv hq
+        obtain ⟨cps, hpx, e1⟩ := pre_dict_inv hp
+        obtain ⟨cqs, hpy, e2⟩ := pre_dict_inv hq
         simp only [Pre.node.injEq] at e1 e2
         obtain ⟨_, rfl⟩ := e1
         obtain ⟨_, rfl⟩ := e2
@@ -289,7 +290,7 @@ theorem disc_val (hlen : ∀ x, (H x).length = 16) : ∀ (v : PyVal), Disc H v
         rw [evalPureList_wrapMap, evalPureList_wrapMap] at henc
         have h1 := List.append_cancel_left henc
         have h2 := List.append_cancel_right h1
-        exact disc_mapping H hlen xs ys cps cqs sx sy hpx hpy hsx hsy gv.1 gw.1 gv.2 gw.2 h2
+        exact disc_mapping H hlen xs ys cps cqs _ _ hpx hpy rfl rfl gv.1 gw.1 gv.2 gw.2 h2
           (disc_items hlen xs) (fun hr => by simp only [Equiv]; exact hr)
           (fun x hx => by
             rw [inputs_wrap, inputs_wrap, inputsList_mapContents, inputsList_mapContents]
@@ -310,8 +311,8 @@ theorem disc_val (hlen : ∀ x, (H x).length = 16) : ∀ (v : PyVal), Disc H v
       cases w with
       | obj j' c' ys =>
         obtain ⟨_, _, _, _, _, _, hobj, _⟩ := words_ok
-        obtain ⟨cps, sx, hpx, hsx, e1⟩ := pre_obj_inv hp
-        obtain ⟨cqs, sy, hpy, hsy, e2⟩ := pre_obj_inv hq
+        obtain ⟨cps, hpx, e1⟩ := pre_obj_inv hp
+        obtain ⟨cqs, hpy, e2⟩ := pre_obj_inv hq
         simp only [Pre.node.injEq] at e1 e2
         obtain ⟨_, rfl⟩ := e1
         obtain ⟨_, rfl⟩ := e2
@@ -324,7 +325,7 @@ theorem disc_val (hlen : ∀ x, (H x).length = 16) : ∀ (v : PyVal), Disc H v
         subst ec
         have h1 := List.append_cancel_left r1
         have h2 := List.append_cancel_right h1
-        exact disc_mapping H hlen xs ys cps cqs sx sy hpx hpy hsx hsy gv.1.2 gw.1.2 gv.2 gw.2 h2
+        exact disc_mapping H hlen xs ys cps cqs _ _ hpx hpy rfl rfl gv.1.2 gw.1.2 gv.2 gw.2 h2
           (disc_items hlen xs) (fun hr => by simp only [Equiv]; exact ⟨trivial, hr⟩)
           (fun x hx => by
             rw [inputs_wrap, inputs_wrap, inputsList_mapContents, inputsList_mapContents]
